@@ -493,3 +493,38 @@ m('c05-exponent-wraps', ['C05'], 'exponent-range', [
                     .checked_sub(exponent_value)
                     .map(|scale| scale as i64)""")],
   'exponents beyond i64 wrap instead of erroring (1e9223372036854775808)')
+# ---- C02 / C03 extra clauses
+m('c02-owned-cmp-swapped', ['C02'], 'Ord for BigDecimal>::cmp:forwards', [
+  ('src/impl_cmp.rs', "        self.to_ref().cmp(&other.to_ref())", "        other.to_ref().cmp(&self.to_ref())")],
+  'owned cmp is reversed while the reference cmp is right')
+m('c03-hash-raw-fields', ['C03'], 'HASH-FIELDS', [
+  ('src/lib.rs', "        dec_str.hash(state);", "        dec_str.hash(state);\n        self.scale.hash(state);")],
+  'scale also hashed: 1.0 and 1.00 collide no more')
+# ---- C08 extra clauses
+m('c08-int-divisor-two-shortcut-wrong', ['C08'], ':shortcuts', [
+  ('src/impl_ops.rs', """                } else if denom.clone() == 2 {
+                    self.half()
+                } else if denom.checked_neg().is_some_and(|n| n == 2) {
+                    self.half().neg()""", """                } else if denom.clone() == 2 {
+                    self.half()
+                } else if denom.checked_neg().is_some_and(|n| n == 2) {
+                    self.half()""")],
+  'x / -2 returns +x/2 for primitive integer divisors')
+m('c08-float-divisor-minus-one', ['C08'], ':shortcuts', [
+  ('src/impl_ops.rs', """                } else if denom == (-1.0 as $t) {
+                    self.neg()
+                } else if denom == (2.0 as $t) {""", """                } else if denom == (-1.0 as $t) {
+                    self
+                } else if denom == (2.0 as $t) {""")],
+  'x / -1.0 returns x')
+m('c08-int-numerator-as-cast', ['C08'], ':shortcuts', [
+  ('src/impl_ops.rs', """                if self.is_one() {
+                    denom.inverse()
+                } else {
+                    BigDecimal::from(self) / denom
+                }""", """                if self.is_one() {
+                    denom.inverse()
+                } else {
+                    BigDecimal::from(self as i64) / denom
+                }""")],
+  'u64/u128/i128 numerators are truncated through `as i64`')
